@@ -21,13 +21,13 @@ CHECKS = {
  "C07": ("the real shaping.Segmenter.Split (bidi split through x/text executed from source, script/delimiter stack, language enforcement, vertical orientation, face split) on every bounded text and sub-range, for every direction bit pattern and every font map (an uninterpreted function of rune and script hint): partition, untouched fields and per-rune uniformity decided for all of them",
          "texts bounded (length, alphabet); the bidi algorithm itself (x/text) and the script/orientation tables are trusted; the reuse clause is checked under C13"),
  "C09": ("every listed generated table parser of font/opentype/tables executed on an arbitrary symbolic byte string with arbitrary non-negative count arguments: no implicit panic, bounded allocation, termination within the unwinding bound, read count inside the input",
-         "decided unit by unit (table parsers in isolation with their documented non-negative count preconditions), for the parsers listed in quick_parsers.txt / thorough_parsers.txt and inputs up to the stated length; whole-font loading, the font-level glue (loadHVtmx, newCmap4, ...), containers, CFF charstrings, bitmap/SVG payloads and query-time accessors are not covered yet"),
+         "decided unit by unit (table parsers in isolation with their documented non-negative count preconditions), for the parsers listed in quick_parsers.txt / thorough_parsers.txt and inputs up to the stated length; of the font-level glue only loadHVtmx, ParseGlyf/loca, newCmap4+Lookup/Iter and Hmtx.Advance are covered (H-C09-font-*); whole-font loading, containers, CFF charstrings, bitmap/SVG payloads and the other query-time accessors are not covered"),
  "C11": ("symbolic cmap values (formats 4, 6/10, 12, 13) through the real Iter/Lookup/RuneRanges, arbitrary valid RuneSets through one step of Add/Delete/Contains/includes/serialize, addRangeToPage over every byte pair, and the coverage builder over symbolic rune ranges; the solver decides agreement for every value inside the segment/page-count bounds",
          "cmaps assumed sorted/non-overlapping (OpenType requirement); cmap0, the symbol/PUA remappers, ProcessCmap's subtable selection and the script half of the coverage are not covered"),
  "C12": ("RecalculateAll/RecomputeAdvance, sideways, AddWordSpacing/AddLetterSpacing/trimStartLetterSpacing on fully symbolic glyph metrics and the real Shape over a stubbed HarfBuzz (sideways law by two Shape calls): identities decided for all metrics within the glyph-count bound",
          "metrics bounded by 2^20; HarfBuzz by contract; scale arithmetic inside HarfBuzz outside"),
- "C13": ("history independence by comparing an object used before with a fresh one on symbolic arguments: shaping.Segmenter.Split (two inputs) and segmenter.Segmenter.Init (two symbolic class sequences)",
-         "the itemizer and the UAX segmenter are covered; shaper caches (font LRU, plan cache), font.Face settings and LineWrapper reuse are not covered yet"),
+ "C13": ("history independence by comparing an object used before with a fresh one on symbolic arguments: shaping.Segmenter.Split (two inputs), segmenter.Segmenter.Init (two symbolic class sequences), HarfbuzzShaper.Shape (two inputs over two faces of one font, every font-cache size in the bound, HarfBuzz by a contract keyed by face) and LineWrapper.WrapParagraph (two paragraphs on one wrapper)",
+         "the itemizer, the UAX segmenter, the shaper's font LRU and the line wrapper's scratch state are covered within the stated text bounds; the HarfBuzz plan cache (shapePlan.equal) and its per-font caches, font.Face settings (SetVariations/SetPpem followed by queries, see C17 for the write sets) and histories longer than two operations are not covered"),
  "C14": ("the real FontMap.ResolveFace / SetQuery / SetScript / rune LRU on histories over a database with symbolic coverage, with arbitrary candidate lists per (query, script): non-nil result and equality with an uncached reference computed from the current state only",
          "candidate construction (family substitution, exact-family selection) is stubbed by contract; maphash is a concrete FNV fold for concrete strings (collisions not explored); AddFace/AddFont, font loading errors and system fonts are outside; histories and the probed rune domain are bounded as stated"),
  "C15": ("symbolic execution of the real retainsBestMatches/matchStretch/matchStyle/matchWeight/filterBy* over candidate sets whose aspects are symbolic grid values (IEEE float32 terms), every request case-split; the solver decides equality with a CSS Fonts §5.2 reference for all candidate multisets of the bounded size",
